@@ -94,14 +94,14 @@ pub fn bytes_threshold() -> Option<usize> {
     crate::config::config(|c| c.verif_bytes_threshold()).ok()
 }
 
-/// `(collecting, finalizing, dropping)`.
-pub fn flags() -> Option<(bool, bool, bool)> {
+/// `(collecting, finalizing, dropping, dropping_list)`.
+pub fn flags() -> Option<(bool, bool, bool, bool)> {
     try_state(|s| {
         #[cfg(feature = "finalization")]
         let f = s.is_finalizing();
         #[cfg(not(feature = "finalization"))]
         let f = false;
-        (s.is_collecting(), f, s.is_dropping())
+        (s.is_collecting(), f, s.is_dropping(), s.is_dropping_list())
     })
     .ok()
 }
